@@ -4,23 +4,27 @@ import (
 	"bytes"
 	"context"
 	"crypto/rand"
+	"encoding/base64"
+	"encoding/hex"
 	"encoding/json"
 	"errors"
 	"fmt"
 	"sort"
 	"sync"
 
+	awsv2 "github.com/aws/aws-sdk-go-v2/aws"
+	kms2sdk "github.com/aws/aws-sdk-go-v2/service/kms"
 	"github.com/aws/aws-sdk-go/aws"
 	"github.com/aws/aws-sdk-go/aws/request"
 	kms1sdk "github.com/aws/aws-sdk-go/service/kms"
-	awsv2 "github.com/aws/aws-sdk-go-v2/aws"
-	kms2sdk "github.com/aws/aws-sdk-go-v2/service/kms"
 
 	"github.com/godaddy/asherah/go/appencryption/pkg/crypto/aead"
+	aelog "github.com/godaddy/asherah/go/appencryption/pkg/log"
 	kmsv1 "github.com/godaddy/asherah/go/appencryption/plugins/aws-v1/kms"
 	kmsv2 "github.com/godaddy/asherah/go/appencryption/plugins/aws-v2/kms"
 
 	"verif/harness/gen"
+	"verif/harness/spy"
 )
 
 func init() { register("kms", "AWS KMS plugins v1/v2 over fake regional KMS (C17, C10)", runKms) }
@@ -38,6 +42,35 @@ type fakeRegion struct {
 	log      *[]string // shared, ordered call log "gen:<id>", "enc:<id>", "dec:<id>"
 	logMu    *sync.Mutex
 	retained [][]byte // plaintext slices handed to the plugin (must be wiped by it)
+	handed   [][]byte // copies of those plaintexts (leak scan)
+	cancel   *kmsCancel
+}
+
+// kmsCancel makes the caller's context done at the moment the n-th successful call of one kind returns (a caller that gave up
+// while the response was in flight): the call itself still succeeds.
+type kmsCancel struct {
+	mu   sync.Mutex
+	kind string
+	left int
+	fn   func()
+}
+
+func (f *fakeRegion) maybeCancel(kind string) {
+	k := f.cancel
+	if k == nil {
+		return
+	}
+	k.mu.Lock()
+	defer k.mu.Unlock()
+	if k.kind != kind || k.fn == nil {
+		return
+	}
+	if k.left == 0 {
+		k.fn()
+		k.fn = nil
+		return
+	}
+	k.left--
 }
 
 func (f *fakeRegion) note(s string) {
@@ -75,7 +108,9 @@ func (f *fakeRegion) generate() ([]byte, []byte, error) {
 	rand.Read(pt)
 	f.mu.Lock()
 	f.retained = append(f.retained, pt)
+	f.handed = append(f.handed, append([]byte(nil), pt...))
 	f.mu.Unlock()
+	f.maybeCancel("gen")
 	if f.partial {
 		return pt, []byte{}, nil
 	}
@@ -87,6 +122,7 @@ func (f *fakeRegion) encrypt(pt []byte) ([]byte, error) {
 	if !f.encOK {
 		return nil, errors.New("region down")
 	}
+	f.maybeCancel("enc")
 	return f.seal(pt), nil
 }
 
@@ -101,7 +137,9 @@ func (f *fakeRegion) decrypt(blob []byte) ([]byte, error) {
 	}
 	f.mu.Lock()
 	f.retained = append(f.retained, pt)
+	f.handed = append(f.handed, append([]byte(nil), pt...))
 	f.mu.Unlock()
+	f.maybeCancel("dec")
 	return pt, nil
 }
 
@@ -156,23 +194,26 @@ func (c fakeV2) GenerateDataKey(_ context.Context, in *kms2sdk.GenerateDataKeyIn
 }
 
 type kmsCase struct {
-	N         int    `json:"n"`
-	Pref      int    `json:"pref"`
-	Gen       []bool `json:"gen"`
-	Enc       []bool `json:"enc"`
-	Dec       []bool `json:"dec"`
-	WrapV     int    `json:"wrapv"`   // plugin version used to wrap
-	UnwrapV   int    `json:"unwrapv"` // plugin version used to unwrap
-	DecN      int    `json:"decn"`    // number of regions configured at the unwrapping side (prefix of the regions, plus preferred)
-	WOrder    []int  `json:"worder"`  // observed client order at the wrapping side
-	DOrder    []int  `json:"dorder"`
-	WrapOK    bool   `json:"wrapok"`
-	GenRegion int    `json:"genregion"`
-	Entries   []int  `json:"entries"`
-	UnwrapOK  bool   `json:"unwrapok"`
-	Same      bool   `json:"same"` // unwrapped bytes equal the original key
-	Attempts  []int  `json:"attempts"`
-	Partial   []bool `json:"partial,omitempty"` // regions whose GenerateDataKey response is incomplete (wipe monitor only, C10)
+	N         int      `json:"n"`
+	Pref      int      `json:"pref"`
+	Gen       []bool   `json:"gen"`
+	Enc       []bool   `json:"enc"`
+	Dec       []bool   `json:"dec"`
+	WrapV     int      `json:"wrapv"`   // plugin version used to wrap
+	UnwrapV   int      `json:"unwrapv"` // plugin version used to unwrap
+	DecN      int      `json:"decn"`    // number of regions configured at the unwrapping side (prefix of the regions, plus preferred)
+	WOrder    []int    `json:"worder"`  // observed client order at the wrapping side
+	DOrder    []int    `json:"dorder"`
+	WrapOK    bool     `json:"wrapok"`
+	GenRegion int      `json:"genregion"`
+	Entries   []int    `json:"entries"`
+	UnwrapOK  bool     `json:"unwrapok"`
+	Same      bool     `json:"same"` // unwrapped bytes equal the original key
+	Attempts  []int    `json:"attempts"`
+	Partial   []bool   `json:"partial,omitempty"` // regions whose GenerateDataKey response is incomplete (wipe monitor only, C10)
+	Cancel    string   `json:"cancel,omitempty"`  // "gen" | "enc" | "dec": the caller's context ends as the CancelAt-th successful call of that kind returns (wipe monitor only, C10)
+	CancelAt  int      `json:"cancelat,omitempty"`
+	Leak      bool     `json:"leak,omitempty"` // debug logging is on and every line is scanned for plaintext keys (C03)
 	Viol      []string `json:"viol,omitempty"`
 }
 
@@ -223,7 +264,31 @@ func probeOrder(p kmsPlugin, regs []*fakeRegion, log *[]string) []int {
 	return order
 }
 
+// kmsLeaks reports debug log lines that contain a plaintext key in any usual rendering (raw, hex, base64, Go's %v of a byte slice).
+func kmsLeaks(lines []string, names []string, needles [][]byte) []string {
+	var out []string
+	for _, l := range lines {
+		for i, nd := range needles {
+			if len(nd) < 16 {
+				continue
+			}
+			if bytes.Contains([]byte(l), nd) || bytes.Contains([]byte(l), []byte(hex.EncodeToString(nd))) ||
+				bytes.Contains([]byte(l), []byte(base64.StdEncoding.EncodeToString(nd))) ||
+				bytes.Contains([]byte(l), []byte(fmt.Sprintf("%v", nd))) {
+				out = append(out, fmt.Sprintf("%s appears in a debug log line (%d characters long)", names[i], len(l)))
+			}
+		}
+	}
+	return out
+}
+
 func runKmsCase(c *kmsCase, r *gen.Rand) {
+	var logger *spy.Logger
+	if c.Leak {
+		logger = &spy.Logger{Keep: true}
+		aelog.SetLogger(logger)
+		defer aelog.SetLogger(nil)
+	}
 	var log []string
 	var logMu sync.Mutex
 	var regs []*fakeRegion
@@ -264,8 +329,34 @@ func runKmsCase(c *kmsCase, r *gen.Rand) {
 		rg.retained = nil
 		rg.partial = i < len(c.Partial) && c.Partial[i]
 	}
-	env, err := wp.EncryptKey(context.Background(), key)
+	wctx, wcancel := context.WithCancel(context.Background())
+	defer wcancel()
+	if c.Cancel == "gen" || c.Cancel == "enc" {
+		kc := &kmsCancel{kind: c.Cancel, left: c.CancelAt, fn: wcancel}
+		for _, rg := range regs {
+			rg.cancel = kc
+		}
+	}
+	env, err := wp.EncryptKey(wctx, key)
 	c.WrapOK = err == nil
+	scan := func(when string) {
+		if logger == nil {
+			return
+		}
+		names, needles := []string{"the system key"}, [][]byte{orig}
+		for _, rg := range regs {
+			for _, h := range rg.handed {
+				names, needles = append(names, fmt.Sprintf("the plaintext data key generated/unwrapped by region %d", rg.id)), append(needles, h)
+			}
+		}
+		for _, l := range kmsLeaks(logger.Take(), names, needles) {
+			viol("%s: %s", when, l)
+		}
+	}
+	scan("EncryptKey")
+	for _, rg := range regs {
+		rg.cancel = nil
+	}
 	if !bytes.Equal(key, orig) {
 		viol("EncryptKey modified the caller's key")
 	}
@@ -277,7 +368,7 @@ func runKmsCase(c *kmsCase, r *gen.Rand) {
 		}
 		rg.retained = nil
 	}
-	if err != nil || anyPartial {
+	if err != nil || anyPartial || c.Cancel == "gen" || c.Cancel == "enc" {
 		return
 	}
 	var parsed struct {
@@ -344,8 +435,17 @@ func runKmsCase(c *kmsCase, r *gen.Rand) {
 		rg.retained = nil
 	}
 	log = nil
-	out, err := dp.DecryptKey(context.Background(), env)
+	dctx, dcancel := context.WithCancel(context.Background())
+	defer dcancel()
+	if c.Cancel == "dec" {
+		kc := &kmsCancel{kind: "dec", left: c.CancelAt, fn: dcancel}
+		for _, rg := range regs {
+			rg.cancel = kc
+		}
+	}
+	out, err := dp.DecryptKey(dctx, env)
 	c.UnwrapOK = err == nil
+	scan("DecryptKey")
 	c.Same = err == nil && bytes.Equal(out, orig)
 	if err == nil && !c.Same {
 		viol("DecryptKey returned bytes different from the wrapped key")
@@ -364,6 +464,9 @@ func runKmsCase(c *kmsCase, r *gen.Rand) {
 				able = true
 			}
 		}
+	}
+	if c.Cancel == "dec" {
+		able = c.UnwrapOK // a caller that gave up may be answered either way: only the wipe is judged
 	}
 	if able && !c.UnwrapOK {
 		viol("unwrap failed although a configured region with an envelope entry can decrypt")
@@ -437,7 +540,15 @@ func runKms(a *args) error {
 		n := 1 + r.Intn(4)
 		c := &kmsCase{N: n, Pref: r.Intn(n), Gen: bits(r.Intn(1<<uint(n)), n), Enc: bits(r.Intn(1<<uint(n)), n), Dec: bits(r.Intn(1<<uint(n)), n),
 			WrapV: 1 + r.Intn(2), UnwrapV: 1 + r.Intn(2), DecN: 1 + r.Intn(n)}
-		if r.Chance(1, 2) { // mostly-healthy cells
+		c.Leak = a.extra == "leak"
+		if a.extra == "cancel" { // the caller's context ends while a successful response is on its way back
+			c.Cancel = gen.Pick(r, []string{"gen", "gen", "enc", "dec"})
+			c.CancelAt = r.Intn(2)
+			if c.Cancel == "gen" {
+				c.CancelAt = 0
+			}
+		}
+		if r.Chance(1, 2) || a.extra == "cancel" { // mostly-healthy cells
 			for j := range c.Gen {
 				c.Gen[j] = c.Gen[j] || r.Chance(2, 3)
 				c.Enc[j] = c.Enc[j] || r.Chance(2, 3)
